@@ -9,7 +9,8 @@ regenerated obligation `all_vector_handlers_fit` below (facts re-extracted from 
 run) and, semantically, the extensional check of tie H (`harness/c06.go`). -/
 namespace C06
 
-/-- a handler used by the `example`s: `v_addc_co_u32` with the CDNA3 in-place VCC -/
+/-- a handler used by the `example`s: `v_addc_co_u32` with an in-place VCC (the CDNA3 handler before its
+    repair; the mode stays in the model, no handler of the repaired tree uses it) -/
 private def exH : Handler Unit := hAddc .inplace
 private def exS : VState :=
   { vgpr := fun l r => if r = 0 then 4294967295 - l else if r = 1 then l + 1 else 7
@@ -30,7 +31,7 @@ example : (vexec exH () 0x5#64 exS).vgpr 2 2 = 1 ∧ (vexec exH () 0x5#64 exS).v
 
 /-- **Lanes whose EXEC bit is clear keep all their vector registers**, and their bit of the mask result is
     what the code's accumulator started with: 0 for `var vcc uint64` handlers (compares, GCN3 carries),
-    the old bit for in-place handlers (CDNA3 `v_addc/v_subb`). -/
+    the old bit for in-place handlers (CDNA3 `v_addc/v_subb` before their repair). -/
 theorem inactive_lanes_unchanged {υ} (h : Handler υ) (u : υ) (exec : BitVec 64) (s : VState)
     (hls : LoadOrStore h) (l : Nat) (hl : exec.getLsbD l = false) :
     (vexec h u exec s).vgpr l = s.vgpr l ∧
@@ -199,7 +200,9 @@ open C06Facts in
 theorem all_vector_handlers_fit :
     (Gen.vectorHandlers.filter (fun h => !isException h)).all FitsSkeleton = true := by decide +kernel
 
-example : FitsSkeleton Gen.vh_cdna3_runVADDCU32 = true ∧ Gen.vh_cdna3_runVADDCU32.masks.length = 1 := by decide
+-- since the repair "cdna3 v_addc/v_subb write 0 for inactive lanes" the handler has the GCN3 shape:
+-- `oldVCC` (read at bit i) and a fresh accumulator `vcc` (two mask variables instead of one in-place)
+example : FitsSkeleton Gen.vh_cdna3_runVADDCU32 = true ∧ Gen.vh_cdna3_runVADDCU32.masks.length = 2 := by decide
 
 /-- the exception list cannot rot: each listed handler exists in the regenerated facts (by name — the
     list refers to the generated constants) and really does not fit, so nothing is excused needlessly -/
